@@ -1,7 +1,9 @@
 """C16 — ROC confidence bands are well-formed envelopes of pointwise rectangles."""
 from __future__ import annotations
 
+import copy
 import math
+import random
 from fractions import Fraction
 
 import numpy as np
@@ -39,11 +41,30 @@ EXPLANATION = ("Theorems in SA/Theorems/C16.lean prove for the model (SA/Model/R
                "Scores.bootstrap_ci calls, recomputes the joint bootstrap interval with the documented metric under the same "
                "seed, and evaluates the Lean predicates (shape, NaN-free, ordered, [0,1], rates, monotone, sentinels, length, "
                "rule of three, envelope, closed form) on the implementation's own outputs; the model's thresholds are compared "
-               "as sorted multisets to 1e-9. fixed_width_band_ci is NOT modelled: only accepts-arguments, rates, shape, "
-               "NaN-free and ordered are evaluated on the implementation.")
+               "as sorted multisets to 1e-9. fixed_width_band_ci: theorems in SA/Theorems/C16Fwb.lean prove for the model "
+               "(SA/Model/FixedWidth.lean: _displace_curve, np.interp on monotone tables, _is_contained, _find_tube_radius, "
+               "the quantile of the radii, the band assembly) and ALL inputs: the band is total exactly on curves with "
+               "len(fnr) = len(fpr) >= 1 (C16_fwb_total), has one row per point (C16_fwb_shape), is ordered for a monotone "
+               "curve, k >= 0, delta >= 0 (C16_fwb_ordered), lies in [0, nextafter(1, inf)] (C16_fwb_range), grows with "
+               "delta (C16_fwb_monotone_delta), has zero width at delta = 0 (C16_fwb_zero_width); the tube radius is 0 or a "
+               "bisection midpoint (2m+1)/256 in (0, 1) (C16_fwb_radius_grid, C16_fwb_bisect_fuel, C16_fwb_radius_bracket), "
+               "containment is monotone in the radius (C16_fwb_contained_monotone), delta is defined and in [0, 1) for every "
+               "alpha (C16_fwb_delta), every curve of a Scores object with both classes non-empty is NaN-free and monotone "
+               "(C16_fwb_curve_monotone) and its band well formed (C16_fwb_wellformed, C16_fwb_scores_wellformed); "
+               "C16_fwb_not_contains_curve is a kernel-checked counterexample to 'the band contains the curve' (delta = 0 "
+               "and a vertical segment). The correspondence run records the real _find_tube_radius / _displace_curve / "
+               "bootstrap_ci calls of every fixed_width_band_ci call and evaluates the Lean predicates of SA/Spec/C16Fwb.lean "
+               "on them: the helpers are called with the returned curve and k = sqrt(len(neg)/len(pos)), every recorded "
+               "radius is the model's bisection result and on the grid, delta is the linear quantile of the radii at level "
+               "1 - alpha, the final displacement vectors are +-(delta, delta k), sampled _displace_curve calls are the "
+               "clipped translate with reset end points and monotone, the bands are the interpolations of the observed "
+               "displaced curves and equal the model's closed form, and lie in [0, nextafter(1, inf)].")
 TRUSTED_BASE = ["Lean 4.33 kernel", "axioms propext/Classical.choice/Quot.sound only",
                 "hand-written model SA/Model/RocCI.lean (+Roc.lean, Threshold.lean, Basic.lean) tied to /repo by this correspondence run",
-                "oracles: np.nextafter, math.pow(alpha, 1/n), scipy.stats.ksone.ppf, the joint bootstrap interval "
+                "hand-written model SA/Model/FixedWidth.lean (np.interp's compiled search modelled as a linear scan, valid for "
+                "non-decreasing tables, which C16_fwb_displace_sorted proves all tables are) tied to /repo by the recorded helper calls",
+                "oracles: np.nextafter, np.sqrt(len(neg)/len(pos)), math.pow(alpha, 1/n), scipy.stats.ksone.ppf, the bootstrap "
+                "samples of fixed_width_band_ci (their rates are the recorded arguments of _find_tube_radius), the joint bootstrap interval "
                 "(Scores.bootstrap_ci of the documented metric; C13/C14 cover it)",
                 "np.sort / np.concatenate / np.linspace / np.where / np.min / np.max by documented meaning",
                 "harness and driver parsing; tolerance 1e-9 on interpolated thresholds, 1e-12 on band values, 2^-50 on quotients"]
@@ -52,6 +73,13 @@ ASSUMPTIONS = ["finite float scores of moderate magnitude, both classes non-empt
                "alpha in (0,1)",
                "fixed_width_band_ci only with a support of at least 3 points spanning the curve (nb_points None or >= 3): with "
                "exactly two support points (nb_points=2) every call raises 'Could not initialise search for displacement'",
+               "a recorded _find_tube_radius result that differs from the model's is counted as skipped (not as a failure) only if, "
+               "at the radius where the two containment decisions differ, some comparison is within 1e-9 of equality (1e-12 for a "
+               "table ordinate, never for the constants 0, 1, nextafter(1, inf)) AND the observed radius is what the opposite decision "
+               "at that radius leads to (float rounding of slope * (x - xp) + fp vs exact arithmetic decides a >= test)",
+               "at most 10 _find_tube_radius calls (fewer for curves with more than 54 points: the model's interpolation is quadratic "
+               "in the number of points) and 6 _displace_curve calls (the two final ones always) of each fixed_width_band_ci call are "
+               "sent to the model; all radii enter the delta check",
                "the closed-form comparison is skipped when a returned rate lies within 1e-9 of 1 - pow(alpha, 1/n) without "
                "being equal to it (float subtraction vs exact subtraction decides a covering test)",
                "ordering of roc_with_ci / pointwise_band_ci bands is not claimed in a run whose bootstrap limits are themselves "
@@ -645,6 +673,269 @@ def _build_rwc(inp):
     return case
 
 
+class _CopyRecorder(common.Recorder):
+    """common.Recorder that stores copies, so that later in-place changes cannot alter what was observed"""
+
+    clock = [0]  # shared by all recorders: completion order of the recorded calls
+
+    def __enter__(self):
+        self.seqs = []
+        self.missing = not hasattr(self.obj, self.name)
+        if self.missing:  # the module no longer has this name (e.g. an import was dropped): nothing to record
+            return self
+        self.orig = getattr(self.obj, self.name)
+        orig = self.orig
+
+        def wrapped(*a, **k):
+            a0, k0 = copy.deepcopy(a), copy.deepcopy(k)
+            r = orig(*a, **k)
+            self.calls.append((a0, k0, copy.deepcopy(r)))
+            _CopyRecorder.clock[0] += 1
+            self.seqs.append(_CopyRecorder.clock[0])
+            return r
+
+        setattr(self.obj, self.name, wrapped)
+        return self
+
+    def __exit__(self, *exc):
+        if getattr(self, "missing", False):
+            return False
+        return super().__exit__(*exc)
+
+
+def _bind(names, a, k):
+    """positional / keyword arguments of a recorded call by parameter name; None if they do not fit"""
+    if len(a) > len(names) or any(key not in names for key in k):
+        return None
+    d = dict(zip(names, a))
+    d.update(k)
+    return d if all(nm in d for nm in names) else None
+
+
+def _vec1(v, n=None):
+    """a recorded 1-d float array as a list of floats, or None"""
+    try:
+        arr = np.asarray(v, dtype=float)
+    except Exception:  # noqa: BLE001
+        return None
+    if arr.ndim != 1 or (n is not None and arr.shape[0] != n):
+        return None
+    return [float(t) for t in arr]
+
+
+FWB_EPS = Fraction(1, 10**9)
+FWB_TOP = float(np.nextafter(1.0, np.inf))
+FWB_MAX_RADIUS_LINES = 10
+FWB_MAX_DISPLACE_LINES = 6
+
+
+# NOTE on issue kinds in the two functions below: C16 claims for fixed_width_band_ci only that it accepts its documented
+# arguments, that the rates match the thresholds and that the bands have shape (n, 2), are NaN-free and ordered.  Those clauses
+# are PROPFAILs (raised by _curve_checks and the `band` driver lines).  Everything here ties the INTERNALS of the real call to
+# the model (how the helpers are called, tube radii, delta, displaced curves, closed form): a difference means the model no
+# longer describes the code - a broken correspondence (DISAGREE), not by itself a violation of C16.
+def _fwb_lines(inp, desc, sig, pre, rec, ofnr, ofpr, fb, gb):
+    """driver lines tying one real fixed_width_band_ci call to the model (SA/Model/FixedWidth.lean).
+
+    rec = (recorded _find_tube_radius calls, recorded _displace_curve calls, recorded bootstrap_ci calls).
+    Returns (lines, roles); roles[i] describes lines[i] for the judge.  Problems that are visible on the Python side alone
+    (helpers not called as documented) are appended to `pre`."""
+    (rt, rt_seq), (rd, rd_seq), rq = rec
+    n = len(ofnr)
+    npos, nneg = len(inp["pos"]), len(inp["neg"])
+    alpha = inp["alpha"]
+    kor = float(np.sqrt(nneg / npos))  # the slope oracle
+    lines, roles = [], []
+
+    def finite(*vs):
+        return all(v is not None and all(math.isfinite(t) for t in v) for v in vs)
+
+    # --- the tube radii -----------------------------------------------------------------------
+    tcalls = []
+    prev_seq = 0
+    for (a_, k_, r_), seq_ in zip(rt, rt_seq):
+        lo_seq, prev_seq = prev_seq, seq_
+        b = _bind(("x", "y", "xs", "ys", "k"), a_, k_)
+        if b is None:
+            continue
+        # the radii at which this call evaluated _is_contained: its _displace_curve calls come in pairs (+d v, -d v)
+        inner = [_vec1(_bind(("x", "y", "v"), da_, dk_)["v"], 2) if _bind(("x", "y", "v"), da_, dk_) else None
+                 for (da_, dk_, _), ds_ in zip(rd, rd_seq) if lo_seq < ds_ < seq_]
+        ovis = [v_[0] for v_ in inner[0::2] if v_ is not None and math.isfinite(v_[0])]
+        x_, y_, xs_, ys_ = (_vec1(b[nm]) for nm in ("x", "y", "xs", "ys"))
+        try:
+            kk, rr = float(b["k"]), float(r_)
+        except Exception:  # noqa: BLE001
+            continue
+        tcalls.append((x_, y_, xs_, ys_, kk, rr, ovis))
+    if len(tcalls) != inp["nbs"]:
+        pre.append(Issue("DISAGREE", "tube-radius", f"{desc}: {len(tcalls)} _find_tube_radius calls were observed for "
+                         f"nb_samples={inp['nbs']}", sig + "/tube-calls"))
+    for x_, y_, xs_, ys_, kk, rr, _ in tcalls:
+        if x_ != ofnr or y_ != ofpr or kk != kor:
+            pre.append(Issue("DISAGREE", "tube-radius", f"{desc}: _find_tube_radius was called with x={x_} y={y_} k={kk}; expected "
+                             f"the curve fnr={ofnr} fpr={ofpr} and k=sqrt({nneg}/{npos})={kor}", sig + "/tube-args"))
+            break
+    radii = [c_[5] for c_ in tcalls]
+    # --- delta ----------------------------------------------------------------------------------
+    odelta, theta = None, None
+    for a_, k_, r_ in rq:
+        b = _bind(("theta", "theta_hat", "alpha"), a_, {kk_: vv for kk_, vv in k_.items() if kk_ != "method"})
+        th = k_.get("theta", a_[0] if a_ else None)
+        theta = _vec1(th)
+        al_ = k_.get("alpha", a_[2] if len(a_) > 2 else None)
+        res_ = _vec1(r_, 2)
+        if theta is None or res_ is None or k_.get("method", "quantile") != "quantile" or al_ is None \
+                or float(al_) != 2 * alpha:
+            pre.append(Issue("DISAGREE", "delta", f"{desc}: bootstrap_ci was called with theta={th} alpha={al_} "
+                             f"method={k_.get('method')!r}; expected the {inp['nbs']} radii, alpha=2*{alpha}, method='quantile'",
+                             sig + "/quantile-args"))
+        else:
+            odelta = res_[1]
+        break
+    if theta is not None and theta != radii:
+        pre.append(Issue("DISAGREE", "delta", f"{desc}: bootstrap_ci got theta={theta}, the observed tube radii are {radii}",
+                         sig + "/quantile-theta"))
+    # --- the displaced curves ----------------------------------------------------------------------
+    dcalls = []
+    for a_, k_, r_ in rd:
+        b = _bind(("x", "y", "v"), a_, k_)
+        if b is None:
+            continue
+        x_, y_, v_ = _vec1(b["x"]), _vec1(b["y"]), _vec1(b["v"], 2)
+        try:
+            ox_, oy_ = _vec1(r_[0]), _vec1(r_[1])
+        except Exception:  # noqa: BLE001
+            ox_, oy_ = None, None
+        dcalls.append((x_, y_, v_, ox_, oy_))
+    final = dcalls[-2:] if len(dcalls) >= 2 else []
+    ok_final = (len(final) == 2 and all(c_[0] == ofnr and c_[1] == ofpr and finite(c_[2]) for c_ in final)
+                and all(c_[3] is not None and c_[4] is not None and len(c_[3]) == n and len(c_[4]) == n for c_ in final))
+    if not ok_final:
+        pre.append(Issue("DISAGREE", "displaced-curves", f"{desc}: the last two _displace_curve calls are not displacements of "
+                         f"the returned curve: {[(c_[0], c_[1], c_[2]) for c_ in final]}", sig + "/final-displace"))
+    if odelta is None and ok_final:
+        odelta = final[0][2][0]  # bootstrap_ci not observed: delta as used
+    if ok_final and radii and finite(radii) and finite(ofnr, ofpr):
+        (_, _, vp, fP, gP), (_, _, vm, fM, gM) = final
+        lines.append(line("fwband", top=q(FWB_TOP), n=n, f=ql(ofnr), g=ql(ofpr), k=q(kor), npos=npos, nneg=nneg,
+                          radii=ql(radii), alpha=q(alpha), odelta=q(odelta), vp0=q(vp[0]), vp1=q(vp[1]), vm0=q(vm[0]),
+                          vm1=q(vm[1]), fP=ql(fP), gP=ql(gP), fM=ql(fM), gM=ql(gM), **_band_kw("fblo", "fbhi", fb),
+                          **_band_kw("gblo", "gbhi", gb), eps=q(FWB_EPS)))
+        roles.append(("fwband", {"radii": radii, "odelta": odelta, "k": kor, "vp": vp, "vm": vm, "fP": fP, "gP": gP,
+                                 "fM": fM, "gM": gM}))
+    # --- the recorded _find_tube_radius calls ---------------------------------------------------------
+    # the model's np.interp scans the table once per query: the cost of a line is quadratic in n
+    budget = max(1, min(FWB_MAX_RADIUS_LINES, 30000 // max(1, n * n)))
+    for x_, y_, xs_, ys_, kk, rr, ovis in tcalls[:budget]:
+        if not finite(x_, y_, xs_, ys_) or not math.isfinite(kk) or len(x_) != len(y_) or len(xs_) != len(ys_):
+            continue
+        lines.append(line("tuberadius", top=q(FWB_TOP), x=ql(x_), y=ql(y_), xs=ql(xs_), ys=ql(ys_), k=q(kk), obs=q(rr),
+                          ovis=ql(ovis), eps=q(FWB_EPS)))
+        roles.append(("tuberadius", {"text": f"_find_tube_radius(x={x_}, y={y_}, xs={xs_}, ys={ys_}, k={kk}) -> {rr}", "r": rr}))
+    # --- a sample of the recorded _displace_curve calls: the two final ones, the first two, two more ---------
+    idx = list(range(max(0, len(dcalls) - 2), len(dcalls))) + [i for i in (0, 1) if i < len(dcalls) - 2]
+    rest = [i for i in range(2, len(dcalls) - 2)]
+    random.Random(inp["seed"]).shuffle(rest)
+    idx += rest[:max(0, FWB_MAX_DISPLACE_LINES - len(idx))]
+    for i in idx:
+        x_, y_, v_, ox_, oy_ = dcalls[i]
+        if not finite(x_, y_, v_) or ox_ is None or oy_ is None or len(x_) != len(y_) or len(x_) == 0:
+            continue
+        mono = all(a <= b for a, b in zip(x_, x_[1:])) and all(a >= b for a, b in zip(y_, y_[1:]))
+        lines.append(line("displace", top=q(FWB_TOP), x=ql(x_), y=ql(y_), v0=q(v_[0]), v1=q(v_[1]), ox=ql(ox_), oy=ql(oy_),
+                          eps=q(FWB_EPS)))
+        roles.append(("displace", {"text": f"_displace_curve(x={x_}, y={y_}, v={v_}) -> ({ox_}, {oy_})", "mono": mono,
+                                   "ox": ox_, "oy": oy_}))
+    return lines, roles
+
+
+def _fwb_judge(case, desc, sig, roles, outs):
+    """issues from the fwband / tuberadius / displace lines"""
+    iss = []
+    tiny = Fraction(1, 10**9)
+    for (role, info), o in zip(roles, outs):
+        if role == "fwband":
+            if o.get("nanrates") == "1":
+                continue  # NaN in the curve: already a PROPFAIL of _curve_checks / the band lines
+            names = {
+                "range": ("range", f"a band entry lies outside [0, nextafter(1, inf)]"),
+                "slope": ("slope", f"k={info['k']} is not sqrt(len(neg)/len(pos))"),
+                "radii": ("tube-radius", f"an observed tube radius is neither 0.0 nor a bisection midpoint (2m+1)/256 in (0, 1): "
+                                         f"{info['radii']}"),
+                "delta": ("delta", f"delta={info['odelta']} is not the linear quantile of the radii {info['radii']} at level "
+                                   f"1 - alpha; expected {o.get('mdelta')}"),
+                "vectors": ("displacement", f"the final displacement vectors {info['vp']} / {info['vm']} are not +-(delta, delta*k) "
+                                            f"with delta={info['odelta']} >= 0, k={info['k']}"),
+                "sortedp": ("displaced-curves", f"the curve displaced by +v is not monotone from (0, top) to (top, 0): "
+                                                f"{info['fP']} / {info['gP']}"),
+                "sortedm": ("displaced-curves", f"the curve displaced by -v is not monotone from (0, top) to (top, 0): "
+                                                f"{info['fM']} / {info['gM']}"),
+                "bandrel": ("band-relation", f"the bands are not the interpolations of the observed displaced curves (minus = "
+                                             f"lower, plus = upper): plus {info['fP']} / {info['gP']} minus {info['fM']} / {info['gM']}"),
+                "closedform": ("closed-form", f"the bands are not the model's closed form for delta={info['odelta']}, k={info['k']}: "
+                                              f"expected fnr_ci lower={o.get('mflo')} upper={o.get('mfhi')}, fpr_ci "
+                                              f"lower={o.get('mglo')} upper={o.get('mghi')}"),
+            }
+            if o.get("nancurves") == "1":
+                iss.append(Issue("DISAGREE", "nan", f"{desc}: a displaced curve contains NaN", sig + "/fwb/nan-curves"))
+            if o.get("nandelta") == "1":
+                iss.append(Issue("DISAGREE", "nan", f"{desc}: delta is NaN", sig + "/fwb/nan-delta"))
+            if "err" in o:
+                iss.append(Issue("DISAGREE", "closed-form", f"{desc} returned but the model's band assembly raises {o['err']}",
+                                 sig + "/fwb/model-error"))
+            for cl_, (clause, msg) in names.items():
+                if ("spec." + cl_) in o and o["spec." + cl_] != "1":
+                    iss.append(Issue("DISAGREE", clause, f"{desc}: {msg}", f"{sig}/fwb/{cl_}"))
+            md = common.pfrac(o["mdelta"]) if "mdelta" in o else None
+            if "mdelta" in o and not common.close(info["odelta"], md, rel=tiny, abs_=tiny):
+                iss.append(Issue("DISAGREE", "delta", f"{desc}: delta={info['odelta']}, model {o['mdelta']}", sig + "/fwb/delta"))
+        elif role == "tuberadius":
+            # excused only if, at the radius where the two containment decisions differ, a comparison is within rounding
+            # distance of equality AND the observed radius is what the opposite decision there leads to
+            near_tie = int(o.get("nearties", "0")) > 0 and o.get("flipok") == "1"
+            if o.get("spec.grid") != "1":
+                iss.append(Issue("DISAGREE", "tube-radius", f"{desc}: recorded call {info['text']}: the radius is neither 0.0 nor a "
+                                 f"bisection midpoint (2m+1)/256 in (0, 1)", sig + "/fwb/radius-grid"))
+            if "err" in o:
+                if near_tie:
+                    case.skipped += 1
+                else:
+                    iss.append(Issue("DISAGREE", "tube-radius", f"{desc}: recorded call {info['text']}: the model raises {o['err']}",
+                                     sig + "/fwb/radius-error"))
+                continue
+            agree = common.close(info["r"], common.pfrac(o["mr"]), rel=tiny, abs_=tiny)
+            if agree and o.get("spec.radius") == "1":
+                continue
+            if near_tie:
+                case.skipped += 1  # at the radius where the decisions differ a comparison is within 1e-9 of equality
+                continue
+            if o.get("spec.radius") != "1":
+                iss.append(Issue("DISAGREE", "tube-radius", f"{desc}: recorded call {info['text']}: the radius is not the bisection "
+                                 f"result {o['mr']} (radii evaluated by the model: {o.get('mvis')}; the containment decisions differ "
+                                 f"at radius {o.get('div')}, smallest comparison margin there {o.get('margin')})", sig + "/fwb/radius"))
+            if not agree:
+                iss.append(Issue("DISAGREE", "tube-radius", f"{desc}: recorded call {info['text']}: model {o['mr']}",
+                                 sig + "/fwb/radius-model"))
+        else:
+            if "err" in o:
+                iss.append(Issue("DISAGREE", "displace", f"{desc}: recorded call {info['text']}: the model raises {o['err']}",
+                                 sig + "/fwb/displace-error"))
+                continue
+            if o.get("spec.displace") != "1":
+                iss.append(Issue("DISAGREE", "displace", f"{desc}: recorded call {info['text']}: expected the clipped translate with "
+                                 f"end points (0, top), (top, 0): x={o.get('mx')} y={o.get('my')}", sig + "/fwb/displace"))
+            mx, my = common.pfracs(o["mx"]), common.pfracs(o["my"])
+            if len(mx) != len(info["ox"]) or len(my) != len(info["oy"]) or not all(
+                    common.close(a, b, rel=tiny, abs_=tiny) for a, b in zip(info["ox"] + info["oy"], mx + my)):
+                iss.append(Issue("DISAGREE", "displace", f"{desc}: recorded call {info['text']}: model x={o.get('mx')} y={o.get('my')}",
+                                 sig + "/fwb/displace-model"))
+            if info["mono"] and o.get("spec.sorted") != "1":
+                iss.append(Issue("DISAGREE", "displaced-curves", f"{desc}: recorded call {info['text']}: the displaced curve is not "
+                                 f"monotone from (0, top) to (top, 0)", sig + "/fwb/displace-sorted"))
+    return iss
+
+
 def _build_exp(inp):
     """pointwise_band_ci / simultaneous_joint_region_ci / fixed_width_band_ci"""
     import scipy.stats
@@ -659,8 +950,10 @@ def _build_exp(inp):
     pre = []
     alpha, nb = inp["alpha"], inp["nb"]
     np.random.seed(inp["seed"])
-    res = common.call(getattr(roc_ci, fname), s, fnr=_arr(inp["fnr"]), fpr=_arr(inp["fpr"]), thresholds=_arr(inp["thr"]),
-                      nb_points=nb, alpha=alpha, config=cfg)
+    with _CopyRecorder(roc_ci, "_find_tube_radius") as rt, _CopyRecorder(roc_ci, "_displace_curve") as rd, \
+            _CopyRecorder(roc_ci, "bootstrap_ci") as rq:
+        res = common.call(getattr(roc_ci, fname), s, fnr=_arr(inp["fnr"]), fpr=_arr(inp["fpr"]), thresholds=_arr(inp["thr"]),
+                          nb_points=nb, alpha=alpha, config=cfg)
     if res[0] == "exc":
         pre.append(Issue("PROPFAIL", "raises", f"{desc} raised {res[1]}: {res[2]}", sig + "/raises"))
         return Case(ID, inp, [], lambda outs: [], tags + ("raised",), 0, pre)
@@ -699,9 +992,13 @@ def _build_exp(inp):
     else:
         for out_ in (fb, gb):
             lines.append(line("band", n=n, **_band_kw("lo", "hi", out_), eps=q(EPS)))
+    fwb_roles = []
+    if kind == "fwb":
+        more, fwb_roles = _fwb_lines(inp, desc, sig, pre, ((rt.calls, rt.seqs), (rd.calls, rd.seqs), rq.calls), ofnr, ofpr, fb, gb)
+        lines += more
     inp = dict(inp)
-    inp["_evals"] = 2 * n
-    case = Case(ID, inp, lines, None, tags, 0, pre)
+    inp["_evals"] = 2 * n + len(fwb_roles)
+    case = Case(ID, inp, lines, None, tags + (("recorded-helpers",) if fwb_roles else ()), 0, pre)
 
     def judge(outs):
         o = outs[0]
@@ -730,6 +1027,8 @@ def _build_exp(inp):
                 iss.append(Issue("PROPFAIL", "envelope", f"{desc}: {name}={band.tolist()} is not the envelope of the rectangles "
                                  f"(fnr -+ {notes['dpos']}) x (fpr -+ {notes['dneg']}); rates fnr={ofnr} fpr={ofpr}: expected "
                                  f"lower={oo.get('mlo')} upper={oo.get('mhi')}", f"{sig}/{name}/envelope"))
+        if fwb_roles:
+            iss += _fwb_judge(case, desc, sig, fwb_roles, outs[3:])
         return iss
 
     case.judge = judge
